@@ -142,6 +142,14 @@ def _library_cached(key):
 
 def build(spec):
     tab = _build(spec)
+    a = spec.get("p_unit", 1.0)
+    if a != 1.0:
+        # the same fluid with pressure in another unit (psi -> Pa is 6894.757, -> bar 0.0689, -> MPa 6.9e-3): pressure x a,
+        # compressibility / a, pseudopressure (integral of 2p/(mu z) dp) x a^2.  In SI units c mu is ~1e-13, pressures
+        # ~1e7 and pseudopressures ~1e19: nothing the scaled problem depends on changes
+        tab["pressure"] = tab["pressure"] * a
+        tab["compressibility"] = tab["compressibility"] / a
+        tab["pseudopressure"] = tab["pseudopressure"] * (a * a)
     e = spec.get("mu_unit", 0)
     if e:
         # the same fluid in another unit of viscosity (cP -> Pa s is 1e-3; 1e12 gives diffusivities of ~1e-9 as in SI
@@ -157,7 +165,7 @@ def _build(spec):
     if fam == "shipped":
         return _shipped(spec)
     if fam == "library":
-        t = _library_cached(json.dumps({k: v for k, v in spec.items() if k != "mu_unit"}, sort_keys=True))
+        t = _library_cached(json.dumps({k: v for k, v in spec.items() if k not in ("mu_unit", "p_unit")}, sort_keys=True))
         return {c: v.copy() for c, v in t.items()}
     return _synthetic(spec)
 
@@ -260,7 +268,8 @@ def table_spec(draw, nmax=120, with_library=True, families=("power", "power1", "
     if with_library:
         opts.append(library_spec())
     spec = dict(draw(st.one_of(*opts)))
-    spec["mu_unit"] = draw(st.sampled_from([0, 0, 0, 0, -3, 3, 6, 12, 15, -6]))
+    spec["mu_unit"] = draw(st.sampled_from([0, 0, 0, 0, -3, 3, 6, 12, 15, -6, -9]))
+    spec["p_unit"] = draw(st.sampled_from([1.0, 1.0, 1.0, 1.0, 6894.757, 0.06894757, 6.894757e-3]))
     return spec
 
 
